@@ -34,6 +34,10 @@ func (SMEnabled) Name() string {
 type UnAckQueue struct {
 	Uslice []*UnAckedStz
 	sync.RWMutex
+	// Acked is the number of stanzas sent on the session that are no longer in the queue because the peer
+	// acknowledged them (or because they were sent again, see SendMissingStz): the n-th entry of Uslice is
+	// stanza number Acked+n of the session, which is what the peer's "h" counts.
+	Acked int
 }
 type UnAckedStz struct {
 	Id  int
